@@ -1,26 +1,231 @@
 package main
 
 import (
-	"errors"
+	"encoding/json"
+	"fmt"
+	"os"
+	"path/filepath"
+	"sort"
+	"strings"
 	"time"
 
 	"verifsim"
 )
 
+// perRunWorker executes a shard one run per OS process: ThreadSanitizer
+// de-duplicates reports per process, and a process that has seen a report is
+// not reused, so every report is attributed to exactly one simulated run.
 func (d *driver) perRunWorker(a workerArgs, timeout time.Duration) ([]byte, error) {
-	return nil, errors.New("not built yet")
+	f, err := os.Create(a.Out)
+	if err != nil {
+		return nil, err
+	}
+	defer f.Close()
+	deadline := time.Now().Add(timeout)
+	var lastOut []byte
+	for i := a.From + a.Offset; i < a.To; i += a.Stride {
+		if time.Now().After(deadline) {
+			return lastOut, fmt.Errorf("watchdog: shard timed out after %v", timeout)
+		}
+		one := a
+		one.From, one.To, one.Stride, one.Offset = i, i+1, 1, 0
+		one.Out = a.Out + fmt.Sprintf(".run%d", i)
+		out, err := d.raceRun(one, 3*time.Minute)
+		lastOut = out
+		rs, rerr := readResults(one.Out)
+		os.Remove(one.Out)
+		if len(rs) != 1 {
+			return out, fmt.Errorf("run %d: no result (%v, %v)", i, err, rerr)
+		}
+		d.attachRace(&rs[0], out)
+		b, _ := json.Marshal(&rs[0])
+		f.Write(b)
+		f.Write([]byte{'\n'})
+	}
+	return lastOut, nil
 }
 
 func (d *driver) raceRun(a workerArgs, timeout time.Duration) ([]byte, error) {
-	return nil, errors.New("not built yet")
+	if a.Samples == 0 {
+		a.Samples = 1 // always embed the scenario (with its recorded schedule)
+	}
+	return d.worker(a, timeout, nil)
 }
 
-func (d *driver) attachRace(r *sim.RunResult, out []byte) {}
+type raceAccess struct {
+	kind   string
+	frames []raceFrame
+}
 
+type raceFrame struct {
+	fn   string
+	file string
+}
+
+func parseRaceReports(out []byte) [][]string {
+	var reports [][]string
+	lines := strings.Split(string(out), "\n")
+	var cur []string
+	in := false
+	for _, l := range lines {
+		if strings.HasPrefix(l, "==================") {
+			if in && len(cur) > 0 {
+				reports = append(reports, cur)
+			}
+			cur = nil
+			in = !in
+			continue
+		}
+		if in {
+			cur = append(cur, l)
+		}
+	}
+	var races [][]string
+	for _, r := range reports {
+		if len(r) > 0 && strings.Contains(r[0], "DATA RACE") {
+			races = append(races, r)
+		}
+	}
+	return races
+}
+
+func parseAccesses(report []string) []raceAccess {
+	var out []raceAccess
+	var cur *raceAccess
+	for i := 0; i < len(report); i++ {
+		l := report[i]
+		t := strings.TrimSpace(l)
+		if strings.HasPrefix(t, "Write at") || strings.HasPrefix(t, "Read at") || strings.HasPrefix(t, "Previous write at") || strings.HasPrefix(t, "Previous read at") ||
+			strings.HasPrefix(t, "Atomic") || strings.HasPrefix(t, "Previous atomic") {
+			out = append(out, raceAccess{kind: t})
+			cur = &out[len(out)-1]
+			continue
+		}
+		if t == "" || strings.HasPrefix(t, "Goroutine ") {
+			cur = nil
+			continue
+		}
+		if cur != nil && strings.HasPrefix(l, "  ") && !strings.HasPrefix(l, "      ") {
+			fr := raceFrame{fn: strings.TrimSuffix(t, "()")}
+			if i+1 < len(report) && strings.HasPrefix(report[i+1], "      ") {
+				fr.file = strings.Fields(strings.TrimSpace(report[i+1]))[0]
+				i++
+			}
+			cur.frames = append(cur.frames, fr)
+		}
+	}
+	return out
+}
+
+func isHarnessFrame(f raceFrame) bool {
+	return strings.HasPrefix(f.fn, "verifsim") || strings.HasPrefix(f.file, "/verif/sim/") || strings.HasPrefix(f.fn, "testing.")
+}
+
+func isSubjectFrame(f raceFrame) bool {
+	if isHarnessFrame(f) {
+		return false
+	}
+	if strings.HasPrefix(f.file, "/opt/veriftools/") || strings.Contains(f.file, "/go1.26.8/src/") {
+		return false
+	}
+	return true
+}
+
+func stripLine(file string) string {
+	if i := strings.LastIndex(file, ":"); i > 0 {
+		return file[:i]
+	}
+	return file
+}
+
+// attributeAccess returns the frame that names the access: the innermost
+// frame in nfpm or a third-party library.
+func attributeAccess(a raceAccess) (raceFrame, bool) {
+	for _, f := range a.frames {
+		if isSubjectFrame(f) {
+			return f, true
+		}
+	}
+	return raceFrame{}, false
+}
+
+// attachRace turns ThreadSanitizer reports in a run's output into violations
+// (or, when only harness frames are involved, into harness trouble).
+func (d *driver) attachRace(r *sim.RunResult, out []byte) {
+	races := parseRaceReports(out)
+	if r.Counters == nil {
+		r.Counters = map[string]int64{}
+	}
+	for _, rep := range races {
+		acc := parseAccesses(rep)
+		var names []string
+		subject := false
+		for _, a := range acc {
+			if f, ok := attributeAccess(a); ok {
+				subject = true
+				names = append(names, f.fn+" ("+filepath.Base(stripLine(f.file))+")")
+			} else if len(a.frames) > 0 {
+				names = append(names, "harness:"+a.frames[0].fn)
+			}
+		}
+		text := strings.Join(rep, "\n")
+		if len(text) > 8000 {
+			text = text[:8000] + "\n…"
+		}
+		if !subject {
+			r.Trouble = "race report that involves only harness frames:\n" + text
+			continue
+		}
+		sort.Strings(names)
+		group := strings.Join(names, " <-> ")
+		r.Counters["race_reports"]++
+		dup := false
+		for _, v := range r.Violations {
+			if v.Group == group {
+				dup = true
+			}
+		}
+		if dup {
+			continue
+		}
+		detail := "DATA RACE between " + group
+		if len(acc) >= 2 {
+			detail += fmt.Sprintf(" [%s / %s]", acc[0].kind, acc[1].kind)
+		}
+		r.Violations = append(r.Violations, sim.Violation{Property: "C12", Oracle: "race", Group: group, Class: "data-race", Detail: detail, RaceText: text})
+	}
+}
+
+// minimiseC12: drop clients, then context switches, while the same violation
+// persists. Race violations are re-run in a fresh process per candidate.
 func (d *driver) minimiseC12(sc *sim.Scenario, try func(*sim.Scenario) *sim.Violation) *sim.Scenario {
-	return sc
+	cur := sc
+	if cur.C12.Mode != "baton" {
+		return cur
+	}
+	// freeze the schedule: from here on the recorded switch points are read
+	if !cur.C12.Replay {
+		c := cloneScenario(cur)
+		c.C12.Replay = true
+		if v := try(c); v != nil {
+			c.Violation = v
+			cur = c
+		} else {
+			return cur
+		}
+	}
+	// drop context switches, last first (keeps the hand-over to the racing client)
+	for i := len(cur.C12.Schedule) - 1; i >= 1; i-- {
+		c := cloneScenario(cur)
+		c.C12.Schedule = append(append([]sim.Switch{}, c.C12.Schedule[:i]...), c.C12.Schedule[i+1:]...)
+		if v := try(c); v != nil {
+			c.Violation = v
+			cur = c
+		}
+	}
+	return cur
 }
 
 func (d *driver) instrument() (string, string, error) {
-	return "", "", errors.New("not built yet")
+	return "", "", fmt.Errorf("ast instrumentation not built yet")
 }
